@@ -217,21 +217,32 @@ def sendReadyOutgoingInputsToRemotes (s : P2P) (now : Nat) : M P2P := do
         loop fuel { s with remotes, outbox := s.outbox ++ out, lastSentOutgoingInputFrame := frame }
   loop (s.outgoingLocalInputs.length + 1) s
 
+/-- The default-input frames in front of the very first (delayed) input of a local player are
+sent to the remotes as well. -/
+def queueInitialBlanks (s : P2P) (h : Nat) (actual : Frame) : M P2P :=
+  if (rget s.localConnectStatus h).lastFrame == NULL_FRAME then
+    (List.range actual.toNat).foldlM (fun s (f : Nat) => s.queueOutgoingLocalInput h (PlayerInput.blank f)) s
+  else pure s
+
+def pendingInputOf (s : P2P) (h : Nat) : M PlayerInput :=
+  match s.pendingLocalInputs.find? (·.1 == h) with
+  | some (_, pi) => pure pi
+  | none => .error "register_local_inputs: missing local input"
+
+/-- One local player's pending input goes into the sync layer and, if it landed, into the
+outgoing queue. -/
+def registerOne (s : P2P) (h : Nat) : M P2P := do
+  let pi ← s.pendingInputOf h
+  let (sync, actual) ← s.sync.addLocalInput h pi
+  let s := { s with sync }
+  if actual != NULL_FRAME then
+    let s ← s.queueInitialBlanks h actual
+    let s := s.setStatus h fun c => { c with lastFrame := actual }
+    s.queueOutgoingLocalInput h ⟨actual, pi.input⟩
+  else pure s
+
 def registerLocalInputs (s : P2P) (now : Nat) : M P2P := do
-  let s ← s.localPlayerHandles.foldlM (fun s h => do
-    let pi ← match s.pendingLocalInputs.find? (·.1 == h) with
-      | some (_, pi) => pure pi
-      | none => .error "register_local_inputs: missing local input"
-    let (sync, actual) ← s.sync.addLocalInput h pi
-    let s := { s with sync }
-    if actual != NULL_FRAME then
-      -- the default-input frames in front of the very first (delayed) input are sent as well
-      let s ← if (rget s.localConnectStatus h).lastFrame == NULL_FRAME then
-          (List.range actual.toNat).foldlM (fun s (f : Nat) => s.queueOutgoingLocalInput h (PlayerInput.blank f)) s
-        else pure s
-      let s := s.setStatus h fun c => { c with lastFrame := actual }
-      s.queueOutgoingLocalInput h ⟨actual, pi.input⟩
-    else pure s) s
+  let s ← s.localPlayerHandles.foldlM registerOne s
   s.sendReadyOutgoingInputsToRemotes now
 
 def sendConfirmedInputsToSpectators (s : P2P) (now : Nat) (confirmed : Frame) : M P2P := do
